@@ -271,6 +271,10 @@ pub fn panic_msg(p: &Box<dyn std::any::Any + Send>) -> String {
         "<non-string panic payload>".into()
     };
     let loc = LAST_PANIC_LOC.with(|l| l.borrow().clone());
+    // a deliberate report from inside the shared zone exercise (fuzz_entry): an oracle verdict, not a bug of the harness
+    if payload.starts_with("VERIF-C07 ") {
+        return payload;
+    }
     if loc.starts_with("src/") || loc.contains("vlib/") || loc.contains("/verif/") || loc.contains(".cargo/registry") {
         format!("{HARNESS_PANIC} {payload} at {loc}")
     } else {
